@@ -93,6 +93,18 @@ type SCAction struct {
 	Addr2  string   `json:"addr2,omitempty"`
 	Roles  []string `json:"roles,omitempty"`
 	Amount string   `json:"amount,omitempty"`
+	// drop: a protocol-level credit message from a metachain contract (Addr2: the ESDT system
+	// contract or another metachain contract) in destination-side form
+	Fn        string `json:"fn,omitempty"`
+	Nonce     uint64 `json:"nonce,omitempty"`
+	Payload   string `json:"payload,omitempty"` // hex of the NFT payload (nonce > 0)
+	ReturnErr bool   `json:"return_err,omitempty"`
+	CallType  int    `json:"call_type,omitempty"`
+	// Twin: the payload carries a different hash under an existing (token, nonce). Such a message
+	// is executed at once and only against an account that holds that nonce right now, so that it
+	// is always refused: an accepted twin would put two different NFTs under one nonce into the
+	// world, which the protocol cannot produce
+	Twin bool `json:"twin,omitempty"`
 }
 
 // Stats collects what a run actually did (evidence).
@@ -259,6 +271,19 @@ func (w *World) Run(m *Msg, fault []int) (*Exec, *spec.Verdict) {
 			for _, v := range spec.Judge(call, w.Env(nd)).Viol {
 				w.violate(v)
 			}
+		} else if fk == DepTrieRead && call.OK && ex.HitKey != "" && ex.HitReads == 1 {
+			// differential reading of "fail-soft": a failed read may be treated as "no value" and as
+			// nothing else. The oracle judges the call with that key absent; only forbidden successes
+			// are reported (a success that even an absent value does not justify), and only when the key
+			// was read once during the call (otherwise "absent" would have to be timed).
+			call.AbsentAddr, call.AbsentKey = ex.HitAddr, ex.HitKey
+			for _, v := range spec.Judge(call, w.Env(nd)).Viol {
+				if v.Clause == "forbidden-success" {
+					v.Detail += fmt.Sprintf(" [the read of key %q failed during this call; a failed read may only be taken as absent]", ex.HitKey)
+					w.violate(v)
+				}
+			}
+			w.Stats.Probes["read-fault-success-judged"]++
 		}
 		w.Stats.Outcome[ex.Func+"/softfault"]++
 		return ex, nil
